@@ -216,6 +216,40 @@ def region_predicates(c):
     return {k: sorted(v) for k, v in out.items()}
 
 
+def default_channel_forms(prog, region):
+    """init_channels of a dynamic region run by the abstract interpreter on an all-symbolic plan: (slots array | None,
+    [(slot index, constant part of the frequency | None, coefficient of the AS923 OFFSET const generic)])"""
+    from .. import absint_interp
+    ib = tables._method_body(prog, region, DCR, 'init_channels')
+    if ib is None:
+        raise CheckError('anchor: init_channels of %s' % short(region))
+    an = absint_interp.new_analyzer(prog, max_depth=5)
+    fr, out = an.analyze_entry(ib)
+    slots = None
+    if out is not None:
+        for k_, v_ in out.mem.items():
+            if isinstance(v_, tuple) and v_ and v_[0] == 'array' and k_[0] == 'obj' and str(k_[1]).startswith('p1_'):
+                slots = v_
+    forms = []
+    if slots is not None:
+        for i_ in sorted(slots[2]):
+            e = slots[2][i_]
+            if e is None or e[0] != 'adt' or e[2] != frozenset([1]):
+                forms.append((i_, None, None))
+                continue
+            ch = an.field_of(e, 1, '0', out, fr)
+            f = an.field_of(ch, 0, 'frequency', out, fr)
+            lin = an.as_int(f, out) if f is not None else None
+            if lin is None:
+                forms.append((i_, None, None))
+                continue
+            terms = dict(lin.co)
+            coef = sum(v for k2, v in terms.items() if 'OFFSET' in str(k2))
+            other = [k2 for k2 in terms if 'OFFSET' not in str(k2)]
+            forms.append((i_, None if other else lin.k, coef))
+    return slots, forms
+
+
 def check(c, res, pid, groups):
     """append the regional rules of `groups` (subset of {'dr', 'power', 'band', 'channels', 'rx1', 'rx2', 'payload', 'cr'}) to res"""
     prog = c.prog
@@ -359,32 +393,7 @@ def check(c, res, pid, groups):
             else:
                 # default channels: init_channels run by the abstract interpreter on an all-symbolic plan; the slots it defines and their
                 # frequencies (a constant, or a constant minus the AS923 group offset) are read from the resulting memory
-                from .. import absint_interp
-                ib = tables._method_body(prog, r, DCR, 'init_channels')
-                an = absint_interp.new_analyzer(prog, max_depth=5)
-                fr, out = an.analyze_entry(ib)
-                slots = None
-                if out is not None:
-                    for k_, v_ in out.mem.items():
-                        if isinstance(v_, tuple) and v_ and v_[0] == 'array' and k_[0] == 'obj' and str(k_[1]).startswith('p1_'):
-                            slots = v_
-                forms = []
-                if slots is not None:
-                    for i_ in sorted(slots[2]):
-                        e = slots[2][i_]
-                        if e is None or e[0] != 'adt' or e[2] != frozenset([1]):
-                            forms.append((i_, None, None))
-                            continue
-                        ch = an.field_of(e, 1, '0', out, fr)
-                        f = an.field_of(ch, 0, 'frequency', out, fr)
-                        lin = an.as_int(f, out) if f is not None else None
-                        if lin is None:
-                            forms.append((i_, None, None))
-                            continue
-                        terms = dict(lin.co)
-                        coef = sum(v for k2, v in terms.items() if 'OFFSET' in str(k2))
-                        other = [k2 for k2 in terms if 'OFFSET' not in str(k2)]
-                        forms.append((i_, None if other else lin.k, coef))
+                slots, forms = default_channel_forms(prog, r)
                 for off in (sorted(o['groups']) if sr == 'AS923Region' else [0]):
                     vals = [None if k0 is None else k0 + co * off for (i_, k0, co) in forms]
                     idx = [i_ for (i_, k0, co) in forms]
